@@ -295,7 +295,12 @@ func TestAllocs(t *testing.T) {
 					stats.Class("request:escaped-path")
 				}
 			}
-			if host != "" && gen.Chance(t, 1, 3, "port") {
+			if gen.Chance(t, 1, 8, "v6host") {
+				// an IPv6 literal on the default port is a valid Host header without a port to strip
+				host = gen.Pick(t, []string{"[::1]", "[2001:db8::1]"}, "v6")
+				stats.Class("request:ipv6-literal-host-without-port")
+			}
+			if host != "" && host[0] != '[' && gen.Chance(t, 1, 3, "port") {
 				host += gen.Pick(t, []string{":8080", ".", ".:443"}, "suffix")
 			}
 			if strings.Contains(path, "//") {
